@@ -133,11 +133,11 @@ CHECKS = {
     note="pydantic-core's JSON text layer and semver's parser are externals (partial: exercised, not proved).",
     ref="DESIGN.md §5 C20"),
  "C15": dict(
-    technique="Lean 4 proof (per-worker pipeline invariant of the channel-operation LTS M-PMAP in (round, slot) coordinates: output = input order, completeness at the end, one outstanding task per worker, deadlock freedom, drop lets workers exit) + output-level correspondence: cargo integration test of parallel_map and the rebuilt extension vs the Python reader",
+    technique="Lean 4 proof (per-worker pipeline invariant of the channel-operation LTS M-PMAP in (round, slot) coordinates: output = input order, completeness at the end, one outstanding task per worker, deadlock freedom, drop lets workers exit, termination) + trace-level correspondence: the order of channel operations recorded under real thread interleavings by an env-guarded hook in parallel_map.rs is accepted by M-PMAP and reproduces the real output + output-level correspondence: cargo integration test of parallel_map and the rebuilt extension vs the Python reader",
     text="C15_output_in_input_order, C15_only_items, C15_complete_at_end, C15_one_outstanding, C15_deadlock_free, C15_drop_lets_workers_exit for every worker count, input length and interleaving. "
          "parallel_map is driven by a cargo test (item-dependent delays, stalling consumer, early drops with /proc/self/task thread counts); the extension rebuilt from /repo/rust is compared with "
-         "as_numpy_iterator for threads <,=,> #shards, all supported compressions, uneven shards, early close; the model's outputs under pseudo-random schedules are compared with both.",
-    note="PARTIAL: Rust thread interleavings cannot be controlled or observed step by step from the harness, so the tie between M-PMAP and the Rust code is at the level of outputs and thread counts only; std::sync::mpsc FIFO/disconnect semantics are a specified external.",
+         "as_numpy_iterator for threads <,=,> #shards, all supported compressions, uneven shards, early close; the model's outputs under pseudo-random schedules are compared with both. With SEDPACK_VERIF=1 the hook records every worker recv / worker send / consumer next / drop in a global order consistent with the channel synchronisation; every recorded trace (three mapped functions with different delay profiles, 1..128 threads, full passes and early drops) must be accepted by M-PMAP step by step and leave the model with the output the iterator really produced.",
+    note="Rust thread interleavings are observed (hook) but not controlled: the schedules exercised are those the OS produces under three delay profiles, the theorems cover all of them; after `drop` the recorded trace is cut (whether a pending send still succeeds is a race) and thread exit is decided by /proc/self/task counts; worker panics (C07) are tied at output level only; std::sync::mpsc FIFO/disconnect semantics are a specified external.",
     ref="DESIGN.md §5 C15, Appendix A.3"),
  "C01": dict(
     technique="Lean 4 proof (little-endian element round trip for every width and bit pattern; byte-order decision for every tag x host; C-order flatten/reshape for every rank, shape and memory layout; whole-attribute round trip; two's complement and safe integer widening; theorems over tables generated from the source: TFRecord encode/decode per dtype, compress/decompress/Rust decoder arms) + byte-level correspondence of stored FlatBuffers vectors with the model + bit-exact end-to-end runs over formats x compressions x dtypes x shapes x presentations x readers",
@@ -177,9 +177,9 @@ def main():
     m = {
         "version": 1,
         "setup_cmd": "cd lean && lake build",
-        "hooks": {"guard": "SEDPACK_VERIF", "enable": "no source hooks: all instrumentation is installed from the harness by module-attribute patching, audit hooks and strace",
+        "hooks": {"guard": "SEDPACK_VERIF", "enable": "one source hook (rust/src/parallel_map.rs, module `verif`): with the environment variable SEDPACK_VERIF=1 the order of parallel_map's channel operations is recorded in memory for the cargo harness of C15 (harness/checks/c15.py sets the variable for that test binary only); everything else is installed from the harness by module-attribute patching, audit hooks and strace",
                   "baseline_off_cmd": "cd /repo && /venv/bin/python -m pytest -ra -q -p no:cacheprovider --timeout=900 --continue-on-collection-errors",
-                  "source_commits": [], "add_only": True},
+                  "source_commits": ["49e3a68"], "add_only": True},
         "engines": [{"name": "lean4-proof+correspondence", "path": "lean/ harness/", "serves_properties": [c["property_id"] for c in checks],
                      "kind_free_text": "Lean 4 theorems over hand-written executable models; compiled Lean driver replays traces observed on the real code"}],
         "checks": checks,
